@@ -9,7 +9,7 @@ let run_parse (a : Sx.t list) : string =
   | [cmd; argv] ->
     let c = build_cmd (Sx.args cmd) in
     let argv = Stdlib.List.map bs (Sx.args argv) in
-    show_outcome (Parser.parse_top c argv)
+    show_outcome_masked c (Parser.parse_top c argv)
   | _ -> "badcase"
 
 let () =
